@@ -1,1 +1,94 @@
-From V Require Import Model.NsAtomic.
+(* C15 — name-server operations are atomic under concurrent clients.  Property theorems only. *)
+From Coq Require Import List NArith Arith Bool.
+Import ListNotations.
+From V Require Import Model.Bytes Model.Atomic Model.NsAtomic Gen.GenLocks Proofs.Atomic Proofs.NsAtomic.
+
+(* Tie to the source (regenerated from nameserver.py on every run): every access of the storage
+   made by every NameServer method lies inside one single `with self.lock:` region.  This is what
+   licenses modelling each operation as ONE critical section ([compile]). *)
+Theorem C15_source_all_locked : ns_all_locked = true.
+Proof. reflexivity. Qed.
+Print Assumptions C15_source_all_locked.
+
+(* Generic: whatever the threads' critical sections do, for EVERY schedule (arbitrary list of
+   thread ids, one shared access per step) the state, the registers (= operation results) and
+   the remaining code equal those of executing whole critical sections atomically, in the order
+   [lin] in which they were released. *)
+Theorem C15_locked_ops_atomic :
+  forall (S R : Type) (c0 : config S R) (sched : list nat),
+  quiescent S R c0 ->
+  owner (run sched c0) = None ->
+  shared (run sched c0) = shared (arun (lin sched c0) c0) /\
+  forall i, threads (run sched c0) i = threads (arun (lin sched c0) c0) i.
+Proof. exact locked_ops_atomic. Qed.
+Print Assumptions C15_locked_ops_atomic.
+
+(* ... and each operation's linearisation point lies between its call and its return: the atomic
+   order is the subsequence of the schedule consisting of the release steps. *)
+Theorem C15_linearisation_points_within_operations :
+  forall (S R : Type) (sched : list nat) (c : config S R), subseq (lin sched c) sched.
+Proof. exact lin_subseq. Qed.
+Print Assumptions C15_linearisation_points_within_operations.
+
+(* The name server: any number of client threads, any operation lists, any initial store, any schedule. *)
+Theorem C15_ns_ops_atomic :
+  forall (nsn : name) (s0 : store) (progs : list (list nsop)) (sched : list nat),
+  let c0 := init (compile nsn) s0 progs in
+  owner (run sched c0) = None ->
+  shared (run sched c0) = shared (arun (lin sched c0) c0) /\
+  forall i, threads (run sched c0) i = threads (arun (lin sched c0) c0) i.
+Proof. exact ns_ops_atomic. Qed.
+Print Assumptions C15_ns_ops_atomic.
+
+(* Of any number of concurrent safe registrations of one (absent) name exactly one succeeds —
+   its value is the one stored — and all others get a naming error; for every schedule under
+   which all of them have returned. *)
+Theorem C15_safe_register_once :
+  forall (nsn n : name) (vals : list val) (s0 : store) (sched : list nat),
+  let c := run sched (init (compile nsn) s0 (reg_progs n vals)) in
+  vals <> [] ->
+  s_mem n s0 = false ->
+  owner c = None ->
+  (forall i, i < length vals -> todo (threads c i) = []) ->
+  exists w vw, nth_error vals w = Some vw /\
+    r_results (tregs (threads c w)) = [ROk] /\
+    s_get n (shared c) = Some vw /\
+    forall i, i < length vals -> i <> w -> r_results (tregs (threads c i)) = [RNamingError].
+Proof. exact safe_register_once. Qed.
+Print Assumptions C15_safe_register_once.
+
+(* k concurrent removals of one registered name (not the name server's own entry): exactly one
+   reports 1, all others report 0, none fails with an internal error, and the name is gone. *)
+Theorem C15_remove_total_one :
+  forall (nsn n : name) (k : nat),
+  name_eqb n nsn = false ->
+  forall (s0 : store) (sched : list nat),
+  let c := run sched (init (compile nsn) s0 (rem_progs n k)) in
+  0 < k ->
+  s_mem n s0 = true -> uniq s0 = true ->
+  owner c = None ->
+  (forall i, i < k -> todo (threads c i) = []) ->
+  s_mem n (shared c) = false /\
+  exists w, w < k /\ r_results (tregs (threads c w)) = [RCount 1] /\
+    forall i, i < k -> i <> w -> r_results (tregs (threads c i)) = [RCount 0].
+Proof. exact remove_total_one. Qed.
+Print Assumptions C15_remove_total_one.
+
+(* The code as it was at the pinned commit (membership test of remove() outside the lock) violates
+   the property: a concrete two-thread schedule ends with an internal error (KeyError). *)
+Theorem C15_unlocked_remove_refuted :
+  let c := run refute_sched (init (compile_unlocked [78%N]) refute_store refute_progs) in
+  owner c = None /\ results_of c 0 = [RCount 1] /\ results_of c 1 = [RInternalError].
+Proof. exact unlocked_remove_refuted. Qed.
+Print Assumptions C15_unlocked_remove_refuted.
+
+(* non-vacuity: the hypotheses of the two race theorems are met by concrete complete schedules *)
+Example C15_nonvacuous_register :
+  let c := run [0;1;2;0;0;0;1;1;1;1;2;2;2;2] (init (compile [78%N]) [] (reg_progs [110%N] [1%N; 2%N; 3%N])) in
+  owner c = None /\ (forallb (fun i => match todo (threads c i) with [] => true | _ => false end) [0;1;2] = true)
+  /\ results_of c 0 = [ROk] /\ results_of c 1 = [RNamingError].
+Proof. vm_compute. repeat split. Qed.
+Example C15_nonvacuous_remove :
+  let c := run [1;0;1;1;1;0;0;0] (init (compile [78%N]) [([120%N], 11%N)] (rem_progs [120%N] 2)) in
+  owner c = None /\ results_of c 1 = [RCount 1] /\ results_of c 0 = [RCount 0].
+Proof. vm_compute. repeat split. Qed.
